@@ -44,7 +44,7 @@ func loadMutants(dir string) ([]Mutant, error) {
 func failingObligations(e *Engine, prop string, timeoutS int) (failed []string, total int, err error) {
 	var obls []*Obligation
 	for k, c := range e.CS.ByKey {
-		if c.Kind != "func" || c.Trusted || !hasProp(c.Props, prop) {
+		if !verifiesFor(c, prop) {
 			continue
 		}
 		fn := e.FuncByKey(k)
@@ -59,6 +59,9 @@ func failingObligations(e *Engine, prop string, timeoutS int) (failed []string, 
 			continue
 		}
 		for _, o := range os2 {
+			if c.Trusted && (o.Kind == "ensures" || o.Kind == "frame") {
+				continue
+			}
 			if o.Kind != "cover" && (len(o.Props) == 0 || hasProp(o.Props, prop)) {
 				obls = append(obls, o)
 			}
